@@ -752,6 +752,9 @@ func ParseBMList(bms *ptttype.BM_t) (uids *[ptttype.MAX_BMs]ptttype.UID) {
 		if err != nil || !uid.IsValid() {
 			continue
 		}
+		if idxUID >= ptttype.MAX_BMs { // BM_t has room for more than MAX_BMs short ids
+			break
+		}
 		uids[idxUID] = uid
 		idxUID++
 	}
